@@ -285,7 +285,7 @@ def stepTrace (s : St) (ts : List String) : St × String :=
     match s.cfg with
     | none => []
     | some c =>
-      match parseOp c.isMap ts with
+      match (resolveRef c.isMap s.m ts).bind (parseOp c.isMap) with
       | none => []
       | some op => if op.wf then opTrace c s.m op else []
   let (s', out) := step s ts
@@ -300,7 +300,7 @@ def stepLabels (s : St) (ts : List String) : St × String :=
     match s.cfg with
     | none => (s, "")
     | some c =>
-      match parseOp c.isMap ts with
+      match (resolveRef c.isMap s.m ts).bind (parseOp c.isMap) with
       | none => (s, "")
       | some op =>
         match op with
